@@ -294,11 +294,17 @@ func TestC07(t *testing.T) {
 				}
 				plan := plan
 				r.Inflight("handoff", plan)
+				planHash := vrt.HashOf(c07Label(plan))
+				lastTrace := ""
 				execs, complete, msg, choices := dfsEnumerate(n, plan.Fault, capExec, func(s *Sched) string {
 					r.Tick()
+					s.OnState = func(h uint64) { r.State(h ^ planHash) }
 					return c07Exec(plan, s)
 				}, func(s *Sched) {
 					r.Eval(vrt.HashOf(s.TraceString()+c07Label(plan)), n >= 2 && s.Choices > 0, "plan:"+c07Label(plan))
+					r.Count("transitions", int64(s.Steps))
+					r.Count("traces_validated_against_impl", 1)
+					lastTrace = s.TraceString()
 				})
 				r.InflightDone()
 				r.SetExhaustive(c07Label(plan), complete)
@@ -316,7 +322,7 @@ func TestC07(t *testing.T) {
 					t.Fatalf("C07 violated under %s: %s", c07Label(plan), msg)
 				}
 				if r.WantSample() {
-					r.Sample(map[string]any{"plan": c07Label(plan), "executions": execs, "complete": complete})
+					r.Sample(map[string]any{"plan": c07Label(plan), "executions": execs, "complete": complete, "last_trace_of_the_enumeration": lastTrace})
 				}
 			}
 		}
@@ -347,9 +353,13 @@ func TestC07(t *testing.T) {
 			taken = append(taken, v)
 			return v
 		}
+		planHash := vrt.HashOf(c07Label(c))
+		s.OnState = func(h uint64) { r.State(h ^ planHash) }
 		r.Inflight("handoff", c)
 		msg := c07Exec(c, s)
 		r.InflightDone()
+		r.Count("transitions", int64(s.Steps))
+		r.Count("traces_validated_against_impl", 1)
 		r.Eval(vrt.HashOf(s.TraceString()+c07Label(c)), s.Choices > 0, "random:"+c.Side, fmt.Sprintf("random:N=%d", c.N))
 		if msg != "" {
 			c.Choices = taken
